@@ -449,6 +449,27 @@ impl tokio::io::AsyncRead for Trickle {
     }
 }
 
+/// A sink that accepts the bytes it is given a few at a time (7, 1, 3, ... per call), as a socket with a nearly full send buffer does.
+struct Dribble {
+    got: Vec<u8>,
+    i: usize,
+}
+
+impl tokio::io::AsyncWrite for Dribble {
+    fn poll_write(mut self: std::pin::Pin<&mut Self>, _cx: &mut std::task::Context<'_>, buf: &[u8]) -> std::task::Poll<std::io::Result<usize>> {
+        let n = [7usize, 1, 3, 64, 2][self.i % 5].min(buf.len());
+        self.i += 1;
+        self.got.extend_from_slice(&buf[..n]);
+        std::task::Poll::Ready(Ok(n))
+    }
+    fn poll_flush(self: std::pin::Pin<&mut Self>, _cx: &mut std::task::Context<'_>) -> std::task::Poll<std::io::Result<()>> {
+        std::task::Poll::Ready(Ok(()))
+    }
+    fn poll_shutdown(self: std::pin::Pin<&mut Self>, _cx: &mut std::task::Context<'_>) -> std::task::Poll<std::io::Result<()>> {
+        std::task::Poll::Ready(Ok(()))
+    }
+}
+
 const PIECES: [&[usize]; 2] = [&[1], &[2, 1, 5, 3, 64, 1, 1000, 7]];
 
 #[derive(Default)]
@@ -458,6 +479,8 @@ struct Obs {
     /// what write_packet produced for the value (hex), and whether the length it reports is the number of bytes written
     framed: String,
     framed_len_reported: bool,
+    /// the same frame written into a sink that takes a few bytes per call arrived there whole (same bytes, same reported length)
+    framed_dribbled_same: bool,
     encoded: String,
     id: i64,
     decoded_ok: bool,
@@ -527,6 +550,17 @@ where
             Ok(Ok((out, n))) => {
                 o.framed = hex(&out);
                 o.framed_len_reported = n == out.len();
+                o.framed_dribbled_same = match value.map(T::build) {
+                    Some(Ok(p3)) => catch_unwind(AssertUnwindSafe(|| {
+                        rt.block_on(async {
+                            let mut sink = Dribble { got: vec![], i: 0 };
+                            let r = sink.write_packet(p3).await;
+                            matches!(r, Ok(m) if m == out.len()) && sink.got == out
+                        })
+                    }))
+                    .unwrap_or(false),
+                    _ => false,
+                };
             }
             Ok(Err(e)) => note(&mut o, "frame", e),
             Err(_) => {
@@ -784,6 +818,7 @@ pub fn main(args: &[String]) {
             "segmented_same": o.segmented_same,
             "framed": o.framed,
             "framed_len_reported": o.framed_len_reported,
+            "framed_dribbled_same": o.framed_dribbled_same,
             "id": o.id,
             "error": o.error,
             "panic": o.panic,
